@@ -72,6 +72,14 @@ func supervise(id, tier string) int {
 		os.Stderr.Write(errBuf.Bytes())
 		return code
 	}
+	// only a fault that the Go runtime itself reports counts against the code under test; a child
+	// that was killed from outside (the kernel's or the sandbox's memory limit, a timeout) says
+	// nothing about the property
+	if se := errBuf.String(); !strings.Contains(se, "fatal error:") && !strings.Contains(se, "panic:") {
+		os.Stderr.Write(errBuf.Bytes())
+		fmt.Fprintf(os.Stderr, "INFRA: the supervised run of %s ended with exit code %d without a runtime fault report\n", id, code)
+		return kit.ExitInfra
+	}
 	last, _ := os.ReadFile(mark)
 	lines := strings.Split(errBuf.String(), "\n")
 	head := lines
